@@ -831,6 +831,10 @@ def parse_rule(item) -> Rule:
         return rules.SeriesEvaluationIdentity()
     elif item['name'] == 'ReplaceSubstitution':
         return rules.ReplaceSubstitution()
+    elif item['name'] in ('Simplify', 'Linearity', 'CommonIntegral', 'FunctionTable', 'SimplifyIdentity',
+                          'ReduceLimit', 'MergeSummation', 'SummationSimplify'):
+        # rules without parameters
+        return getattr(rules, item['name'])()
     else:
         print(item['name'], flush=True)
         raise NotImplementedError
